@@ -15,12 +15,20 @@ From Eino Require Import Base.Util Model.Graph Proofs.DagChan Proofs.DagInv.
 From Coq Require Import Lia Permutation.
 Open Scope N_scope.
 
+(* a control edge parallel to a data-carrying branch end is a data edge too: true of every graph built
+   through the public API (Graph.AddEdge is always data + control; Workflow branches carry no data) *)
+Definition api_built (g : graph) : Prop :=
+  forall n t, In n (g_nodes g) -> In t (n_csucc n) -> In t (branch_ends_of n true) -> In t (n_dsucc n).
+
 Section DagTrig.
   Variable V : Type.
   Variable ops : vops V.
   Variable g : graph.
   Hypothesis Hdag : g_mode g = Dag.
   Hypothesis Hnk : NoDup (map n_key (g_nodes g)).
+  (* a control edge parallel to a data-carrying branch end is a data edge too: true of every graph built
+     through the public API (Graph.AddEdge is always data + control; Workflow branches carry no data) *)
+  Hypothesis Hcd : api_built g.
 
   Notation chan := (chan V).
   Notation chans := (chans V).
@@ -42,7 +50,7 @@ Section DagTrig.
 
   Lemma find_node_unique n : In n (g_nodes g) -> find_node g (n_key n) = Some n.
   Proof.
-    unfold find_node. revert Hnk. induction (g_nodes g) as [|m l IH]; simpl; [intros _ []|].
+    clear Hcd. unfold find_node. revert Hnk. induction (g_nodes g) as [|m l IH]; simpl; [intros _ []|].
     intros Hnd [<-|Hin].
     - now rewrite N.eqb_refl.
     - inversion Hnd as [|? ? Hnot Hnd']; subst.
@@ -67,25 +75,33 @@ Section DagTrig.
     simpl. destruct (b_nodata b); simpl in Ht; [destruct Ht|assumption].
   Qed.
 
-  Lemma dpred_cases k n t :
-    find_node g k = Some n -> In k (dpreds g t) -> In t (n_dsucc n) \/ In t (branch_ends_of n false).
+  Lemma dpred_cases_true k n t :
+    find_node g k = Some n -> In k (dpreds g t) -> In t (n_dsucc n) \/ In t (branch_ends_of n true).
   Proof.
     intros Hf Hin. unfold dpreds in Hin. apply in_map_iff in Hin. destruct Hin as (m & Hk & Hm).
     apply filter_In in Hm. destruct Hm as [Hm Hc].
     assert (m = n).
     { apply find_node_unique in Hm. rewrite Hk in Hm. congruence. }
-    subst m. unfold is_dpred in Hc. apply orb_true_iff in Hc. rewrite !memb_in in Hc.
-    destruct Hc as [?|Hc]; [now left|right; now apply branch_ends_true_false].
+    subst m. unfold is_dpred in Hc. apply orb_true_iff in Hc. rewrite !memb_in in Hc. exact Hc.
   Qed.
 
-  (* an end node of a branch is selected or reported as skipped *)
+  Lemma dpred_cases k n t :
+    find_node g k = Some n -> In k (dpreds g t) -> In t (n_dsucc n) \/ In t (branch_ends_of n false).
+  Proof.
+    intros Hf Hin. destruct (dpred_cases_true k n t Hf Hin) as [?|Hc]; [now left|right; now apply branch_ends_true_false].
+  Qed.
+
+  (* an end node of a branch is selected, a direct control successor, or reported as skipped *)
   Lemma branch_end_sel_or_skl n out sel sk t :
-    eval_branches V ops n out = Ok (sel, sk) -> In t (branch_ends_of n false) -> In t sel \/ In t sk.
+    eval_branches V ops n out = Ok (sel, sk) -> In t (branch_ends_of n false) ->
+    In t sel \/ In t (n_csucc n) \/ In t sk.
   Proof.
     unfold eval_branches. destruct (forallb _ _); [|discriminate]. intros [= <- <-] Hin.
     destruct (in_dec N.eq_dec t (flat_map snd (map (fun b => (b, choose V ops b out)) (n_branches n)))) as [Hs|Hns];
       [now left|right].
-    apply nodup_In. apply filter_In. split; [|apply negb_true_iff; now apply memb_false].
+    destruct (in_dec N.eq_dec t (n_csucc n)) as [Hc|Hnc]; [now left|right].
+    apply nodup_In. apply filter_In. split.
+    2:{ apply andb_true_iff. split; apply negb_true_iff; now apply memb_false. }
     rewrite branch_ends_false in Hin. apply in_flat_map in Hin. destruct Hin as (b & Hb & Ht).
     apply in_flat_map. exists (b, choose V ops b out). split; [apply in_map_iff; eauto|]. simpl.
     apply filter_In. split; [assumption|]. apply negb_true_iff. apply memb_false. intros Hc. apply Hns.
@@ -102,8 +118,9 @@ Section DagTrig.
   Proof.
     intros Hf He Hin Hnr. destruct (sel_skl_of n out sel sk He) as [Es Ek]. rewrite Ek.
     destruct (cpred_cases k n t Hf Hin) as [Hc|Hb]; [exfalso; apply Hnr; now left|].
-    destruct (branch_end_sel_or_skl n out sel sk t He Hb) as [Hs|?]; [|assumption].
-    exfalso. apply Hnr. right. now rewrite Es.
+    destruct (branch_end_sel_or_skl n out sel sk t He Hb) as [Hs|[Hc|?]]; [| |assumption].
+    - exfalso. apply Hnr. right. now rewrite Es.
+    - exfalso. apply Hnr. now left.
   Qed.
 
   Lemma not_routed_d_skl k n out sel sk t :
@@ -111,9 +128,10 @@ Section DagTrig.
     ~ routes_d n out t -> In t (skl_of n out).
   Proof.
     intros Hf He Hin Hnr. destruct (sel_skl_of n out sel sk He) as [Es Ek]. rewrite Ek.
-    destruct (dpred_cases k n t Hf Hin) as [Hc|Hb]; [exfalso; apply Hnr; now left|].
-    destruct (branch_end_sel_or_skl n out sel sk t He Hb) as [Hs|?]; [|assumption].
-    exfalso. apply Hnr. right. now rewrite Es.
+    destruct (dpred_cases_true k n t Hf Hin) as [Hc|Hb]; [exfalso; apply Hnr; now left|].
+    destruct (branch_end_sel_or_skl n out sel sk t He (branch_ends_true_false n t Hb)) as [Hs|[Hc|?]]; [| |assumption].
+    - exfalso. apply Hnr. right. now rewrite Es.
+    - exfalso. apply Hnr. left. apply Hcd; [|assumption..]. now destruct (find_node_in g k n Hf).
   Qed.
 
   (* every node that has k among its predecessors is a successor of k *)
